@@ -673,7 +673,7 @@ def run(ctx):
             thm = "T2 correspondence Model/Time.v <-> betterproto"
             corr_inputs.append(descr[i])
         ctx.fail("corr", what, input=descr[i], expected_model=model_val, observed_impl=pairs[i][1], theorem_or_correspondence=thm,
-                 no_input=(kind in ("T3", "pinned-float-model")))
+                 model_expr=pairs[i][0], no_input=(kind in ("T3", "pinned-float-model")))
     for i in (1, len(pairs) // 3, 2 * len(pairs) // 3, len(pairs) - 1):
         ctx.sample({"case": descr[i], "model_expr": pairs[i][0][:300], "impl": pairs[i][1][:300]})
 
@@ -729,25 +729,75 @@ def finish(ctx):
                                   "(boundaries + random) and the calendar part of the JSON forms is an oracle"})
 
 
+def impl_eval(C, d):
+    """recompute the implementation side of a T2 case from its stored description (None if not reconstructible)"""
+    bp = C.bp
+    op, kind = d.get("op"), d.get("kind")
+    if kind == "datetime":
+        dt = mk_dt(d["wall_us"], d["off_us"])
+        M = C.get(d["fno"], datetime)
+        table = {
+            "from_datetime": lambda: res(lambda: bp._Timestamp.from_datetime(dt), pair_cv),
+            "bytes": lambda: res(lambda: bytes(M(f=dt)), cb),
+            "len": lambda: res(lambda: len(M(f=dt)), cz),
+            "to_dict": lambda: res(lambda: M(f=dt).to_dict().get("f"), opt_str),
+            "timestamp_to_json": lambda: res(lambda: bp._Timestamp.timestamp_to_json(dt), lambda s: cb(s.encode())),
+            "parse(bytes)": lambda: res(lambda: M().parse(bytes.fromhex(d["bytes"])).f, dt_cv),
+        }
+    elif kind == "timedelta":
+        td = timedelta(microseconds=d["us"])
+        M = C.get(d["fno"], timedelta)
+        table = {
+            "from_timedelta": lambda: res(lambda: bp._Duration.from_timedelta(td), pair_cv),
+            "bytes": lambda: res(lambda: bytes(M(f=td)), cb),
+            "len": lambda: res(lambda: len(M(f=td)), cz),
+            "to_dict": lambda: res(lambda: M(f=td).to_dict().get("f"), opt_str),
+            "delta_to_json": lambda: res(lambda: bp._Duration.delta_to_json(td), lambda s: cb(s.encode())),
+            "parse(bytes)": lambda: res(lambda: M().parse(bytes.fromhex(d["bytes"])).f // US, cz),
+            "from_dict": lambda: res(lambda: M().from_dict({"f": d["string"]}).f // US, cz),
+        }
+    elif kind == "duration-string":
+        table = {"from_dict": lambda: res_any(lambda: C.get(1, timedelta)().from_dict({"f": d["string"]}).f // US, cz)}
+    elif kind == "wire":
+        b = bytes.fromhex(d["bytes"])
+        s_, n_ = d["seconds"], d["nanos"]
+        table = {
+            "parse as Timestamp field": lambda: res(lambda: C.get(d["fno"], datetime)().parse(b).f, dt_cv),
+            "parse as Duration field": lambda: res(lambda: C.get(d["fno"], timedelta)().parse(b).f // US, cz),
+            "to_timedelta": lambda: res(lambda: bp._Duration(seconds=s_, nanos=n_).to_timedelta() // US, cz),
+            "to_datetime": lambda: res(lambda: bp._Timestamp(seconds=s_, nanos=n_).to_datetime(), dt_cv),
+            "bytes(_Duration)": lambda: res(lambda: bytes(bp._Duration(seconds=s_, nanos=n_)), cb),
+        }
+    else:
+        return None
+    f = table.get(op)
+    return f() if f else None
+
+
 def replay(ctx, obj):
-    """re-run the oracle (or show the model/implementation pair) on the input stored in a replay file"""
+    """re-run the oracle on the stored input; for a correspondence break also re-evaluate model and implementation"""
     C = Classes()
     ref = C.reference(ctx.seed)
     inp = obj.get("input") or {}
     print(json.dumps({k: obj.get(k) for k in ("kind", "what", "cls", "expected_model", "observed_impl") if k in obj}, indent=1))
     problems = []
+    still_corr = False
+    if obj.get("kind") == "corr" and obj.get("model_expr"):
+        now = impl_eval(C, inp)
+        if now is not None:
+            bad = lib.coq_compare(ctx, "c15replay", IMPORTS, [(obj["model_expr"], now)])
+            still_corr = bool(bad)
+            print("implementation now:", now)
+            print("model:", lib.coq_eval(ctx, IMPORTS, obj["model_expr"]))
+            print("model and implementation still disagree" if still_corr else "model and implementation agree on this input now")
     if inp.get("kind") == "datetime":
         problems = oracle_datetime(C, ref, inp["wall_us"], inp["off_us"], inp.get("fno", 1))
     elif inp.get("kind") == "timedelta":
         problems = oracle_duration(C, ref, inp["us"], inp.get("fno", 1))
-    elif inp.get("kind") == "wire":
-        b = bytes.fromhex(inp["bytes"])
-        print("as Timestamp field:", res(lambda: C.get(inp["fno"], datetime)().parse(b).f, repr))
-        print("as Duration field:", res(lambda: C.get(inp["fno"], timedelta)().parse(b).f, repr))
     for cls, why in problems:
         print(f"still fails [{cls}]: {why}")
     known = {k["cls"] for k in lib.load_known(ctx.pid) if k["status"] == "open"}
     real = [p for p in problems if p[0] not in known]
-    if not problems:
+    if not problems and not still_corr:
         print("the property holds on this input with the current tree")
-    return 1 if real else 0
+    return 1 if (real or still_corr) else 0
